@@ -801,3 +801,10 @@ class InterpBuiltins:
 
     def bi_typed(self, args, kw, line):
         return args[0]
+
+    def bi_assume(self, args, kw, line):
+        """assume(e): only inside a @lemma body - restricts the universally quantified parameters of the lemma"""
+        if not getattr(self, 'in_lemma', False):
+            raise Unsupported(f'assume() outside a @lemma body (line {line})')
+        self.run.assume(self.as_bool(self.truthy(args[0])))
+        return None
